@@ -83,6 +83,10 @@ func (fr *frame) call(x *ssa.Call, st *State, pos string) Value {
 		key := cc.Method.FullName()
 		if h, ok := invokeIntrinsics[key]; ok {
 			if v, handled := h(fr, x, args, st, pos); handled {
+				if c.intrinsics == nil {
+					c.intrinsics = map[string]bool{}
+				}
+				c.intrinsics[key] = true
 				return v
 			}
 		}
@@ -207,6 +211,10 @@ func (fr *frame) staticCall(x *ssa.Call, fn *ssa.Function, args []Value, binding
 		}
 	}
 	if h, ok := extIntrinsics[key]; ok {
+		if c.intrinsics == nil {
+			c.intrinsics = map[string]bool{}
+		}
+		c.intrinsics[key] = true
 		return h(fr, x, args, st, pos)
 	}
 	ct, recvNowPtr := c.e.ContractFor(fn)
